@@ -206,3 +206,21 @@ func sameSiteStr(s http.SameSite) string {
 }
 
 func itoa(n int) string { return strconv.Itoa(n) }
+
+// vfIsSessionCookie: the session cookie itself or one of its split parts (not the CSRF cookies).
+func vfIsSessionCookie(cfg *vfCfg, name string) bool {
+	n := cfg.CookieName
+	if name == n {
+		return true
+	}
+	if len(name) == 256 && len(n) > 250 {
+		if i := strings.LastIndex(name, "_"); i > 0 && name[i+1:] != "" && strings.Trim(name[i+1:], "0123456789") == "" && strings.HasPrefix(n, name[:i]) {
+			return true
+		}
+	}
+	if strings.HasPrefix(name, n+"_") {
+		rest := name[len(n)+1:]
+		return rest != "" && strings.Trim(rest, "0123456789") == ""
+	}
+	return false
+}
